@@ -21,18 +21,27 @@
 (* it is kept as a vacuity guard: TLC must reject it (a late failing call  *)
 (* lands between the monitor's redisAlive := 1 and its monitorStarted :=   *)
 (* false: the flag goes back to 0 and nobody is left to set it to 1).      *)
+(* Variant = "deadline" is the second guard, for the liveness property: a  *)
+(* monitor whose pings succeed only for a limited time after its start     *)
+(* (one context with a deadline shared by all pings, a bounded number of   *)
+(* attempts ...).  Real time is not part of the model, so the expiry is an *)
+(* environment step that may happen at any moment while the monitor waits  *)
+(* for its tick; TLC must reject NeverStuck and Return for it (outage that  *)
+(* outlasts the budget: Redis up for good, redisAlive = 0 for good).  On   *)
+(* the real code this is the outage-duration dimension of the replay       *)
+(* (TokenLimit!Wait).                                                      *)
 (***************************************************************************)
 EXTENDS Integers, FiniteSets, TLC
 
 CONSTANTS Callers,   \* caller goroutines
-          Variant    \* "asis" | "hoisted"
+          Variant    \* "asis" | "hoisted" | "deadline"
 
 VARIABLES up,        \* Redis answers
           alive,     \* redisAlive (atomic)
           started,   \* monitorStarted (guarded by rescueLock)
           lock,      \* holder of rescueLock: a caller, "mon" or "free"
           pc,        \* [Callers -> program counter]
-          mon        \* monitor: "none" | "tick" | "store1" | "lock" | "clear"
+          mon        \* monitor: "none" | "tick" | "spent" | "store1" | "lock" | "clear"
 
 vars == <<up, alive, started, lock, pc, mon>>
 
@@ -126,11 +135,18 @@ MonClear ==
 
 MonStep == Ping \/ MonStore1 \/ MonLock \/ MonClear
 
+\* deadline variant only: real time passes, the monitor's budget is used up (no fairness: it may never happen);
+\* in "spent" the monitor keeps ticking but no ping of it can succeed any more - it has no further step
+Expire ==
+  /\ Variant = "deadline" /\ mon = "tick"
+  /\ mon' = "spent"
+  /\ UNCHANGED <<up, alive, started, lock, pc>>
+
 (* ----------------------------------------------------------- Redis *)
 Down == up /\ up' = FALSE /\ UNCHANGED <<alive, started, lock, pc, mon>>
 Up   == ~up /\ up' = TRUE /\ UNCHANGED <<alive, started, lock, pc, mon>>
 
-Next == (\E c \in Callers : CallerStep(c)) \/ MonStep \/ Down \/ Up
+Next == (\E c \in Callers : CallerStep(c)) \/ MonStep \/ Expire \/ Down \/ Up
 
 \* every goroutine keeps running (strong fairness: taking the lock is enabled only intermittently);
 \* a caller may stay idle, the server may stay up or down
@@ -141,7 +157,7 @@ Spec == Init /\ [][Next]_vars /\ SF_vars(MonStep) /\ \A c \in Callers : SF_vars(
 TypeOK ==
   /\ up \in BOOLEAN /\ alive \in {0, 1} /\ started \in BOOLEAN
   /\ lock \in Callers \cup {"mon", "free"}
-  /\ mon \in {"none", "tick", "store1", "lock", "clear"}
+  /\ mon \in {"none", "tick", "spent", "store1", "lock", "clear"}
 
 \* the monitor runs only while monitorStarted is set
 MonitorMatchesFlag == (mon # "none") => started
